@@ -736,3 +736,73 @@ package valid
 //@ func VarForFn
 //@ func Url
 //@ func UrlForFn
+
+// ---------------------------------------------------------------------------
+// in / include / re / ints / unique / datetime: safety and at-most-one clause (C13, C02); verdicts see C05 section
+
+//@ functype strPred(a, b)
+//@   signature func(string, string) bool
+//@   modifies nothing
+
+//@ func In$1
+//@   modifies nothing
+//@   ensures [C05 in.pred] result == (tvVal == v)
+//@ func Include$1
+//@   modifies nothing
+//@   ensures [C05 include.pred] result == contains(tvVal, v)
+
+//@ func in
+//@   requires errBuf != nil && rv.valid(tv) && !rv.ro(tv) && fn != nil
+//@   modifies sb.content(errBuf), sb.nw(errBuf)
+//@   ensures [C02 in.once] sb.nw(errBuf) <= old(sb.nw(errBuf)) + 1 && prefixof(old(sb.content(errBuf)), sb.content(errBuf))
+
+//@ func In
+//@   requires errBuf != nil && rv.valid(tv) && !rv.ro(tv)
+//@   modifies sb.content(errBuf), sb.nw(errBuf)
+//@   ensures [C02 in.once] sb.nw(errBuf) <= old(sb.nw(errBuf)) + 1 && prefixof(old(sb.content(errBuf)), sb.content(errBuf))
+//@ func Include
+//@   requires errBuf != nil && rv.valid(tv) && !rv.ro(tv)
+//@   modifies sb.content(errBuf), sb.nw(errBuf)
+//@   ensures [C02 include.once] sb.nw(errBuf) <= old(sb.nw(errBuf)) + 1 && prefixof(old(sb.content(errBuf)), sb.content(errBuf))
+
+//@ func Re
+//@   requires errBuf != nil && rv.valid(tv) && !rv.ro(tv)
+//@   modifies sb.content(errBuf), sb.nw(errBuf)
+//@   ensures [C02 re.once] sb.nw(errBuf) <= old(sb.nw(errBuf)) + 1 && prefixof(old(sb.content(errBuf)), sb.content(errBuf))
+//@   loop#0 invariant splitIndex >= 0 && splitIndex + 1 <= i && i <= l - 1 && l == len(validName) && fresh(sliceptr(b))
+//@   loop#0 decreases l - i
+
+//@ func Ints
+//@   requires errBuf != nil && rv.valid(tv) && !rv.ro(tv)
+//@   modifies sb.content(errBuf), sb.nw(errBuf)
+//@   ensures [C02 ints.once] sb.nw(errBuf) <= old(sb.nw(errBuf)) + 1 && prefixof(old(sb.content(errBuf)), sb.content(errBuf))
+//@   loop#1 invariant 0 <= i && l == rv.len(tv)
+//@   loop#1 decreases l - i
+
+//@ func Unique
+//@   requires errBuf != nil && rv.valid(tv) && !rv.ro(tv)
+//@   modifies sb.content(errBuf), sb.nw(errBuf)
+//@   ensures [C02 unique.once] sb.nw(errBuf) <= old(sb.nw(errBuf)) + 1 && prefixof(old(sb.content(errBuf)), sb.content(errBuf))
+//@   loop#0 invariant uniqueMap != nil && fresh(uniqueMap)
+//@   loop#1 invariant 0 <= i && l == rv.len(tv) && uniqueMap != nil && fresh(uniqueMap)
+//@   loop#1 decreases l - i
+
+//@ func Datetime
+//@   requires errBuf != nil && rv.valid(tv) && !rv.ro(tv)
+//@   modifies sb.content(errBuf), sb.nw(errBuf)
+//@   ensures [C02 datetime.once] sb.nw(errBuf) <= old(sb.nw(errBuf)) + 1 && prefixof(old(sb.content(errBuf)), sb.content(errBuf))
+//@   loop#0 invariant len(defaultSplit) == 3 && fresh(sliceptr(defaultSplit))
+
+//@ func GetOnlyExplainErr
+//@   modifies nothing
+
+//@ func GenValidKV
+//@   modifies nothing
+
+//@ func JoinTag2Val
+//@   modifies nothing
+
+//@ func SetCustomerValidFn
+//@   modifies mapof(validName2FnMap)
+
+//@ func SetStructTypeCache
